@@ -197,8 +197,9 @@ func buildKind(name, mk string, keys []string, extra ...aOp) aKind {
 }
 
 var aKinds = []aKind{
-	buildKind("plain", `{t: {}}`, []string{`"p"`, `"0"`, `SYM`}),
-	buildKind("array", `{t: [1, 2]}`, []string{`"0"`, `"2"`, `"length"`, `SYM`},
+	// index keys are written both as strings and as numbers: the engine has separate internal methods for integer-valued keys
+	buildKind("plain", `{t: {}}`, []string{`"p"`, `"0"`, `SYM`, `0`}),
+	buildKind("array", `{t: [1, 2]}`, []string{`0`, `"2"`, `"length"`, `SYM`},
 		aOp{name: "length=0", full: "length=0", js: `"use strict"; return x.length = 0;`},
 		aOp{name: "Array.prototype.push.call", full: "Array.prototype.push.call", js: `return AP.push.call(x, 2);`}),
 	// (own keys of a function are materialised lazily and their order depends on the access history - property C04's
@@ -206,12 +207,12 @@ var aKinds = []aKind{
 	buildKind("function", `(function () { var t = function (a, b) { "use strict"; SL.push("T(" + R(this) + "," + R(a) + "," + R(b) + "," + (new.target ? "new" : "call") + ")"); if (new.target) this.a = a; else return "ret"; }; Reflect.getOwnPropertyDescriptor(t, "prototype"); Reflect.ownKeys(t); return {t: t}; })()`,
 		[]string{`"p"`, `"prototype"`, `"name"`, `SYM`}),
 	buildKind("arrow", `(function () { var t = (a, b) => "ret" + R(a); Reflect.ownKeys(t); return {t: t}; })()`, []string{`"p"`, `"length"`}),
-	buildKind("String", `{t: new String("ab")}`, []string{`"0"`, `"2"`, `"length"`, `"p"`}),
+	buildKind("String", `{t: new String("ab")}`, []string{`"0"`, `2`, `"length"`, `"p"`}),
 	buildKind("mappedArguments", `(function (a, b) { return {t: arguments, getA: function () { return a; }, setA: function (v) { a = v; }}; })(1, 2)`,
-		[]string{`"0"`, `"2"`, `"callee"`, `SYM`},
+		[]string{`0`, `"2"`, `"callee"`, `SYM`},
 		aOp{name: "formal=2", full: "formal=2", js: `env.setA(2); return 0;`}),
-	buildKind("strictArguments", `(function (a, b) { "use strict"; return {t: arguments}; })(1, 2)`, []string{`"0"`, `"callee"`, `"p"`}),
-	buildKind("Uint8Array", `{t: new Uint8Array(2)}`, []string{`"0"`, `"2"`, `"-0"`, `"p"`}),
+	buildKind("strictArguments", `(function (a, b) { "use strict"; return {t: arguments}; })(1, 2)`, []string{`"0"`, `1`, `"callee"`, `"p"`}),
+	buildKind("Uint8Array", `{t: new Uint8Array(2)}`, []string{`0`, `"2"`, `"-0"`, `"p"`}),
 }
 
 func jsPartA() string {
